@@ -53,7 +53,8 @@ class C03(Engine):
                 "flags": rng.subset(["-l", "-q"], 1, 4),
                 "build": rng.pick(["san", "san", "small"]),
                 # where the source lives must not matter to what the file carries (ELF stores the name)
-                "srcpath": rng.pick(["a.asm", "a.asm", "src/a.asm", "./a.asm", "/sim/w/deep/dir/prog.asm", "../w/a.asm", "x/../a.asm"])}
+                "srcpath": rng.pick(["a.asm", "a.asm", "src/a.asm", "./a.asm", "/sim/w/deep/dir/prog.asm", "../w/a.asm", "x/../a.asm"]),
+                "pad_lines": (rng.pick([32760, 65528, 65530, 65532, 131064]) + rng.below(6)) if rng.chance(1, 20) else 0}
 
     def run(self, ex, plan):
         res = RunResult()
@@ -70,7 +71,13 @@ class C03(Engine):
             # the page list of the small-page build is searched linearly: wide images are slow there, not wrong
             ex = self.variant(ex0, "san")
             res.probe("small_build_skipped_wide_image")
-        src = images.render_image(img).encode()
+        text = images.render_image(img)
+        if plan.get("pad_lines"):
+            # a tall source: the data sits on source lines around 2^15, 2^16, 2^17 (line numbers are kept per byte of the image)
+            first, rest = text.split("\n", 1)
+            text = first + "\n" + "\n" * plan["pad_lines"] + rest
+            res.probe("tall_source")
+        src = text.encode()
         digests = []
         for fmt in plan["formats"]:
             if fmt in CONTIG and hi - lo > (1 << 20):
@@ -272,7 +279,7 @@ class C03(Engine):
                         if c["entry"] is not None and not any(x <= c["entry"] < x + len(y) // 2 for x, y in c["segments"]):
                             c["entry"] = None
                         yield c
-        for k in ("stale", "chunk_seed"):
+        for k in ("stale", "chunk_seed", "pad_lines"):
             if plan[k]:
                 c = copy.deepcopy(plan)
                 c[k] = 0
